@@ -323,6 +323,13 @@ fn res_text<A>(r: &rubato::ResampleResult<A>) -> String {
     }
 }
 
+fn res_text2(r: &rubato::ResampleResult<(usize, usize)>) -> String {
+    match r {
+        Ok(v) => format!("Ok{:?}", v),
+        Err(e) => format!("Err({})", crate::run::ErrInfo::from(e).text()),
+    }
+}
+
 fn c16_state<T: Flt>(acc: &mut Acc, cfg: &Cfg, h: &[Op]) -> Result<(), String> {
     let n = cfg.channels;
     let probe = mat::<T>(cfg, h)?;
@@ -574,7 +581,7 @@ fn c16_boxed<T: Flt>(acc: &mut Acc, cfg: &Cfg, depth: usize) -> Result<(), Strin
                     if let Ok((c, _)) = &ra {
                         pos += c;
                     }
-                    format!("{:?}", ra.as_ref().ok()) == format!("{:?}", rb.as_ref().ok()) && bits(&oa, gd.out_max) == bits(&obb, gd.out_max)
+                    res_text2(&ra) == res_text2(&rb) && bits(&oa, gd.out_max) == bits(&obb, gd.out_max)
                 }
                 Op::PP(_) => {
                     let x: Vec<Vec<T>> = input.iter().map(|c| c.iter().take(1).copied().collect()).collect();
@@ -585,7 +592,7 @@ fn c16_boxed<T: Flt>(acc: &mut Acc, cfg: &Cfg, depth: usize) -> Result<(), Strin
                     if let Ok((c, _)) = &ra {
                         pos += c;
                     }
-                    let vb = format!("{:?}", ra.as_ref().ok()) == format!("{:?}", rb.as_ref().ok()) && bits(&oa, gd.out_max) == bits(&obb, gd.out_max);
+                    let vb = res_text2(&ra) == res_text2(&rb) && bits(&oa, gd.out_max) == bits(&obb, gd.out_max);
                     vb
                 }
                 Op::W => {
@@ -612,6 +619,43 @@ fn c16_boxed<T: Flt>(acc: &mut Acc, cfg: &Cfg, depth: usize) -> Result<(), Strin
             };
             if !same {
                 acc.fail("C16", cfg, &h[..=i], "vecresampler-differs", format!("step {} ({}) through Box<dyn VecResampler> differs from the direct call", i, op.text()));
+                break;
+            }
+            // calls the core rejects must be forwarded unchanged too (same error, nothing written,
+            // nothing consumed): end-of-stream calls with a wrong number of (empty or non-empty)
+            // input channels, a mask of the wrong length, a short output
+            let g2 = direct.r.getters();
+            let shapes: Vec<(&str, Option<Vec<Vec<T>>>, Option<Vec<bool>>, usize)> = vec![
+                ("Some(no channels)", Some(vec![]), None, n),
+                ("Some(n+1 empty channels)", Some(vec![Vec::new(); n + 1]), None, n),
+                ("Some(n-1 channels with one frame)", Some(vec![vec![T::from64(0.5); 1]; n - 1]), None, n),
+                ("mask one too long", Some(vec![vec![T::from64(0.5); 1]; n]), Some(vec![true; n + 1]), n),
+                ("None with one output channel missing", None, None, n - 1),
+            ];
+            let mut bad_same = true;
+            for (what, x, mask, nout) in shapes {
+                let mut oa: Vec<Vec<T>> = vec![vec![sent; g2.out_max]; nout];
+                let mut obb: Vec<Vec<T>> = vec![vec![sent; g2.out_max]; nout];
+                let ra = direct.r.process_partial_into_buffer(x.as_deref(), &mut oa, mask.as_deref());
+                let rb = boxed.process_partial_into_buffer(x.as_deref(), &mut obb, mask.as_deref());
+                acc.steps += 2;
+                let (ta, tb) = (
+                    match &ra { Ok(v) => format!("Ok{:?}", v), Err(e) => format!("Err({})", crate::run::ErrInfo::from(e).text()) },
+                    match &rb { Ok(v) => format!("Ok{:?}", v), Err(e) => format!("Err({})", crate::run::ErrInfo::from(e).text()) },
+                );
+                if ta != tb || bits(&oa, g2.out_max) != bits(&obb, g2.out_max) {
+                    acc.fail("C16", cfg, &h[..=i], "vecresampler-differs", format!("after step {}: process_partial_into_buffer({}) through Box<dyn VecResampler> gives {}, the direct call {}", i, what, tb, ta));
+                    bad_same = false;
+                    break;
+                }
+                if ra.is_ok() {
+                    // (accepted by both: only possible for shapes that are not malformed for this type)
+                    if let Ok((c, _)) = &ra {
+                        pos += c;
+                    }
+                }
+            }
+            if !bad_same {
                 break;
             }
         }
